@@ -15,7 +15,8 @@ ASSUMPTIONS = ["devices without duration ceilings; probe arguments are value-val
                "acceptance that depends on values/timing is VALUE (no verdict); the SLM-mask DMM is VALUE for delay/add"]
 TIERS = {"quick": dict(cases=1200, shards=8, case_timeout=120, shard_timeout=900),
          "thorough": dict(cases=20000, shards=16, case_timeout=120, shard_timeout=3000)}
-FLOORS = {"quick": {"judged:REFUSE": 5000, "judged:ALLOW": 3000, "queries_checked": 5000},
+FLOORS = {"quick": {"judged:REFUSE": 5000, "judged:ALLOW": 3000, "queries_checked": 5000,
+                    "deferred_dmm_redeclarations_probed": 30},
           "thorough": {"judged:REFUSE": 80000}}
 WEIGHTS = {"sample": 0.1, "str": 0.1, "to_abstract_repr": 0, "build_copy": 0, "queries": 0, "measure": 0.3,
            "get_duration": 0.2, "estimate_added_delay": 0.1, "is_in_eom_mode": 0, "current_phase_ref": 0.1,
@@ -69,6 +70,10 @@ def probes(rng, m: ts.Model, g: gen.ProgGen) -> list[dict]:
     out.append({"op": "config_detuning_map", "dmm_id": gen.pick(rng, dm),
                 "map": ({"by": "qubits", "ids": list(g.qids), "weights": [1.0] * len(g.qids)} if not m.mappable else
                         {"by": "traps", "traps": g.reg["traps"], "weights": [1.0] * len(g.reg["traps"])})})
+    taken = [i for i in dm[:-1] if i in m.used or i in m.param_dmm]
+    if taken and not m.mappable:  # a DMM that is already taken (also by a deferred declaration), once more
+        out.append({"op": "config_detuning_map", "dmm_id": gen.pick(rng, taken),
+                    "map": {"by": "qubits", "ids": list(g.qids), "weights": [0.5] * len(g.qids)}})
     # (on a parametrized sequence config_slm_mask is deferred unvalidated: an unknown DMM id is accepted and then
     #  breaks `declared_channels` with a KeyError - outside the statement, see DESIGN 7.5; only valid ids are probed there)
     dm_slm = dm if not m.param else dm[:-1]
@@ -126,6 +131,8 @@ def _run_case(ctx, idx, rng, tier):
         ev = r.step(op)
         ok = ev.exc is None and ev.stage == "call"
         ctx.count("judged:" + verdict)
+        if m.param and op["op"] == "config_detuning_map" and why == "dmm-unavailable":
+            ctx.count("deferred_dmm_redeclarations_probed")
         ctx.mark_nontrivial((m.digest(), op["op"], verdict, why))
         if ev.stage != "call":
             return ok
@@ -172,6 +179,24 @@ def _run_case(ctx, idx, rng, tier):
             ctx.violation("query", f"query raised {e!r}", "query-raises")
         return ok
 
+    if idx % 5 == 2:
+        # a walk that is parametrized from its second call on: a channel, a variable, a delay of that variable, and
+        # (on devices with a DMM) deferred DMM declarations, so that the rest explores the parametrized mode
+        ids = [i for i in m.spec if not m.spec[i].get("dmm") and m.spec[i]["addr"] == "Global"]
+        if ids:
+            do({"op": "declare_channel", "name": "pre", "ch_id": gen.pick(rng, ids)}, False)
+            do({"op": "declare_variable", "name": "pv", "dtype": "int"}, False)
+            do({"op": "delay", "duration": {"e": "var", "name": "pv"}, "ch": "pre"}, False)
+            dmm_ids = [i for i in m.spec if m.spec[i].get("dmm")]
+            if dmm_ids and m.mode != "xy" and not m.mappable and rng.random() < 0.7:
+                did = gen.pick(rng, dmm_ids)
+                first = gen.pick(rng, ["map", "map", "slm"])
+                if first == "map":
+                    do({"op": "config_detuning_map", "dmm_id": did,
+                        "map": {"by": "qubits", "ids": list(g.qids), "weights": [1.0] * len(g.qids)}}, False)
+                elif m.slm_ok if hasattr(m, "slm_ok") else True:
+                    do({"op": "config_slm_mask", "qubits": [g.qids[0]], "dmm_id": did}, False)
+                ctx.count("parametrized_preambles_with_dmm")
     for _ in range(rng.randint(5, 40)):
         if rng.random() < 0.45:
             cand = probes(rng, m, g)
